@@ -1163,13 +1163,9 @@ package astits
 // muxer.go
 
 // Pieces of the table generation that are not verified: the PAT content is collected from the program map (a map
-// range), and the PMT section body writer. Assumed: they touch nothing but what is listed, a PMT body is shorter
-// than 60 KiB, is written through w only and leaves it on a byte boundary.
+// range). Assumed: it touches nothing but what is listed.
 //@ extern (programMap).toPATDataUnlocked
 //@   ensures [C04,C05,C17,C09,C13] data: result != nil && fresh(result) && 0 <= len(result.Programs) && len(result.Programs) <= 4000 && allocated(result.Programs) && forall(k, 0, len(result.Programs), result.Programs[k] != nil) && result.TransportStreamID == 0
-//@ extern writePMTSection
-//@   modifies writer(w)
-//@   ensures [C04,C05,C17,C09,C13] assumed: aligned(w) && 0 <= wN(w) && wN(w) >= old(wN(w)) && wN(w) - old(wN(w)) < 0xf000 && wPrefix(w) && (result1 == nil ==> result0 == wN(w) - old(wN(w))) && result1 != ErrPCRPIDInvalid
 // io.Writer (assumed, per its documentation): n bytes are accepted, all of them when no error is returned.
 //@ extern (io.Writer).Write
 //@   modifies sinkN(recv), sinkData(recv), sinkFails(recv)
@@ -1496,12 +1492,15 @@ package astits
 
 // writeDescriptor: the length byte announces exactly the number of body bytes that follow, for every covered tag.
 //@ func writeDescriptor
-//@   requires aligned(w) && 0 <= wN(w) && wN(w) < 0x080000000000 && descOK(d) && bodyPresent(d) && dLen(d) <= 255 && (d.Tag == 0x45 ==> okVBIData(d.VBIData))
+//@   requires aligned(w) && 0 <= wN(w) && wN(w) < 0x080000000000
+//@   requires descOK(d)
+//@   requires bodyPresent(d) && dLen(d) <= 255 && (d.Tag == 0x45 ==> okVBIData(d.VBIData))
 //@   modifies writer(w)
 //@   let n0 = old(wN(w))
 //@   ensures [C14,C13,C09] header: result1 == nil ==> wb(w, n0, 0) == d.Tag && (tagCovered(d.Tag) ==> wb(w, n0, 1) == u8(dLen(d)))
 //@   ensures [C14,C13,C09] whole: tagCovered(d.Tag) && result1 == nil ==> wN(w) == n0 + 2 + dLen(d) && result0 == 2 + dLen(d) && aligned(w)
 //@   ensures [C14,C13,C09] prefix: wPrefix(w)
+//@   ensures [C14,C13,C09] noerr: tagCovered(d.Tag) ==> result1 == nil
 
 // VBI data: a service occupies its id, a length byte and then one byte per line descriptor (known service ids) or one
 // reserved byte. The length function and the writer advance by exactly that per service (loop assertions); with one
@@ -1541,6 +1540,16 @@ package astits
 //@   modifies writer(w)
 //@   loop 0 invariant [C14,C13,C09] idx: rangeindex == iter - 1 && iter <= len(ds) && aligned(w) && wN(w) == old(wN(w)) + written && 0 <= written && written <= 257 * iter && wPrefix(w)
 //@   ensures [C14,C13,C09] count: result1 == nil ==> wN(w) == old(wN(w)) + result0 && aligned(w) && wPrefix(w)
+//@   ensures [C14,C13,C09] noerr: result1 == nil && 0 <= result0 && result0 <= 257 * len(ds)
+
+// program_info_length / ES_info_length: '1111', the 12-bit length that calcDescriptorsLength computes, then the descriptors.
+//@ func writeDescriptorsWithLength
+//@   opt nopre
+//@   requires aligned(w) && 0 <= wN(w) && wN(w) < 0x020000000000 && dsW(ds)
+//@   modifies writer(w)
+//@   let n0 = old(wN(w))
+//@   ensures [C14,C13,C09] count: result1 == nil && wN(w) == n0 + result0 && aligned(w) && wPrefix(w) && 2 <= result0 && result0 <= 2 + 257 * len(ds)
+//@   ensures [C14,C13,C09] lenfield: be16(wD(w), n0) == 0xf000 | retof(calcDescriptorsLength, 0) & 0xfff
 
 // ---------------------------------------------------------------------------
 // dvb.go, write side (C15)
@@ -1617,7 +1626,24 @@ package astits
 //@   ensures [C13,C09,C17] count: wN(w) == n0 + 5 && result0 == 5 && result1 == nil && aligned(w) && wPrefix(w)
 //@   ensures [C13,C09,C17] bytes: be16(wD(w), n0) == h.TableIDExtension && wb(w, n0, 2) == 0xc0 | (h.VersionNumber & 0x1f) << 1 | u8(h.CurrentNextIndicator) && wb(w, n0, 3) == h.SectionNumber && wb(w, n0, 4) == h.LastSectionNumber
 
-// The body of a section: the PAT entries (verified), the PMT body (assumed extern above), nothing for other tables.
+// A PMT section body (2.4.4.8): '111' PCR_PID, program_info_length + program descriptors, then for each stream, in
+// list order: stream_type, '111' elementary_PID, ES_info_length + that stream's descriptors. Domain: at most 110
+// streams and two descriptors of covered types per descriptor loop (the sizes for which the bounds below keep a section
+// under 60 KiB); the precondition is an assumption on the caller's PMT at the only call site (opt nopre), and so
+// is the well-formedness of each descriptor loop where it is handed to writeDescriptorsWithLength.
+//@ func writePMTSection
+//@   opt nopre
+//@   requires aligned(w) && 0 <= wN(w) && wN(w) < 0x010000000000 && pmtOK(d)
+//@   modifies writer(w)
+//@   let n0 = old(wN(w))
+//@   loop 0 invariant [C13,C09,C17,C04,C05] scan: rangeindex == iter - 1 && iter <= len(d.ElementaryStreams) && aligned(w) && b.err == nil && wPrefix(w) && bytesWritten == wN(w) - n0 && 4 <= bytesWritten && bytesWritten <= 520 + 520 * iter && be16(wD(w), n0) == 0xe000 | d.PCRPID & 0x1fff
+//@   loop 0 assert [C13,C09,C17] stream: wN(w) == pre(wN(w)) + 3 + retof(writeDescriptorsWithLength, 0) && wb(w, pre(wN(w)), 0) == u8(es.StreamType) && be16(wD(w), pre(wN(w)) + 1) == 0xe000 | es.ElementaryPID & 0x1fff
+//@   at call writeDescriptorsWithLength#0 assert [C13,C09,C17] progdesc: sameSlice($ds, d.ProgramDescriptors) && wN(w) == n0 + 2 && be16(wD(w), n0) == 0xe000 | d.PCRPID & 0x1fff
+//@   at call writeDescriptorsWithLength#1 assert [C13,C09,C17] esdesc: sameSlice($ds, es.ElementaryStreamDescriptors)
+//@   ensures [C13,C09,C17,C04,C05] any: result1 == nil && aligned(w) && wPrefix(w) && n0 + 4 <= wN(w) && wN(w) - n0 < 0xf000 && result0 == wN(w) - n0
+//@   ensures [C13,C09,C17] pcr: be16(wD(w), n0) == 0xe000 | d.PCRPID & 0x1fff
+
+// The body of a section: the PAT entries, the PMT body, nothing for other tables.
 //@ func writePSISectionSyntaxData
 //@   requires aligned(w) && 0 <= wN(w) && wN(w) < 0x200000000000 && d != nil && (tableID == 0 ==> patOK(d.PAT)) && (tableID == 2 ==> d.PMT != nil)
 //@   modifies writer(w)
@@ -1736,6 +1762,10 @@ package astits
 //@   ensures [C17] unknown: forall(k, 0, old(len(m.pmt.ElementaryStreams)), old(m.pmt.ElementaryStreams[k].ElementaryPID) != pid) ==> result == ErrPIDNotFound && len(m.pmt.ElementaryStreams) == old(len(m.pmt.ElementaryStreams)) && m.pmtUpdated == old(m.pmtUpdated)
 //@   ensures [C17] removed: result == nil ==> m.pmtUpdated && len(m.pmt.ElementaryStreams) == old(len(m.pmt.ElementaryStreams)) - 1 && !has(m.esContexts, u32(pid))
 //@   ensures [C17] either: result == nil || result == ErrPIDNotFound
+// insertion order is kept: the streams before the removed one stay where they were, those after it move up by one
+//@   ensures [C17] which: result == nil ==> 0 <= foundIdx && foundIdx < old(len(m.pmt.ElementaryStreams)) && old(m.pmt.ElementaryStreams[foundIdx].ElementaryPID) == pid
+//@   ensures [C17] kept: result == nil ==> forall(k, 0, foundIdx, m.pmt.ElementaryStreams[k] == old(m.pmt.ElementaryStreams[k]))
+//@   ensures [C17] shifted: result == nil ==> forall(k, foundIdx, len(m.pmt.ElementaryStreams), m.pmt.ElementaryStreams[k] == old(m.pmt.ElementaryStreams[k + 1]))
 
 // ---------------------------------------------------------------------------
 // demuxer.go: NextData
